@@ -207,6 +207,8 @@ class Harness:
             cls = type("Cfg_" + (path.replace(".", "_").replace("/", "__") or "root"), (Component,), {"__init__": __init__, **methods})
             if h.naming_of(path) == "ref":
                 setattr(dyn, cls.__name__, cls)
+                # (every other reference names the class as an attribute of another object: `module:Holder.Inner`)
+                setattr(dyn, "Holder_" + cls.__name__, type("Holder_" + cls.__name__, (), {"Inner": cls}))
             return cls
 
         for path in sorted(nodes, key=lambda p: -p.count(".") - (1 if p else 0)):
@@ -226,7 +228,8 @@ class Harness:
         node = self.tree["nodes"][path]
         naming = self.naming_of(path)
         if naming == "ref":
-            return f"verif_dyn_components:{self.classes[path].__name__}"
+            name = self.classes[path].__name__
+            return f"verif_dyn_components:Holder_{name}.Inner" if len(path) % 2 else f"verif_dyn_components:{name}"
         if naming == "entrypoint":
             return vf.BY_SHAPE[(node["shape"] in ("prepare", "both"), node["shape"] in ("start", "both"))][0]
         return self.classes[path]
@@ -376,6 +379,26 @@ async def scenario(case: dict[str, Any], out: dict[str, Any]) -> None:
         # caller's configuration object untouched
         if canon(cfg) != snap or any(canon(o) != snap_ids[i] for i, o in holder.items()):
             bad("config-mutated", f"start_component modified the configuration object it was given (mode {mode}): now {cfg!r}", mode=mode)
+        # ... also by a start that *fails* because a type named in the configuration cannot be resolved / is no component class
+        if isinstance(cfg.get("components"), dict) and cfg["components"]:
+            cfg2 = copy.deepcopy(cfg)
+            victim = sorted(cfg2["components"], key=str)[0]
+            if cfg2["components"][victim] is None:
+                cfg2["components"][victim] = {}
+            cfg2["components"][victim]["type"] = "verif_no_such_component_type" if len(victim) % 2 else "builtins:dict"
+            snap2, holder2 = canon(cfg2), ids(cfg2)
+            snap2_ids = {i: canon(o) for i, o in holder2.items()}
+            r2: dict[str, Any] = {}
+            kept = (dict(h.received), list(h.order), list(h.events))
+            await one_run(h, cfg2, r2)
+            h.received.clear()
+            h.received.update(kept[0])
+            h.order[:] = kept[1]
+            h.events = kept[2]
+            inc("starts_failing_on_an_unresolvable_type_in_the_configuration", int(r2["error"] is not None))
+            if r2["error"] is not None and (canon(cfg2) != snap2 or any(canon(o) != snap2_ids[i] for i, o in holder2.items())):
+                bad("config-mutated", f"a start_component that failed ({describe_exc(r2['error'])}) left the configuration object it was given modified (mode {mode}): "
+                                      f"now {cfg2!r}", mode=mode)
         # resource names: `default` in prepare() stays, in start() becomes the alias suffix; explicit names stay
         for p, n in nodes.items():
             suffix = n["alias"].split("/", 1)[1] if "/" in n["alias"] else "default"
